@@ -473,6 +473,23 @@ func probeCodes(g *spec.Grammar) []int {
 	for i := 0; i < 700; i++ {
 		set[r.Intn(3000)] = true
 	}
+	// integers that equal a token code (or the end marker) modulo 2^32 or 2^31
+	wrap := []int{-1, 0, 43}
+	for _, t := range g.Tokens {
+		if t.Num != 0 {
+			wrap = append(wrap, t.Num)
+		} else if t.Name == "" {
+			wrap = append(wrap, t.Lit)
+		}
+	}
+	for c := 256; c < 300; c++ {
+		wrap = append(wrap, c)
+	}
+	for _, c := range wrap {
+		for _, d := range []int{1 << 32, -(1 << 32), 1 << 31, 1 << 33} {
+			set[c+d] = true
+		}
+	}
 	var res []int
 	for c := range set {
 		res = append(res, c)
